@@ -214,6 +214,20 @@ CHECKS["C01"] = dict(
     note=TB + "; FIFO lines, one epoch per run; ACK racing the timeout in one loop iteration not modelled; the NCP of the theorem is a relation, the NCP of the experiment a Python simulator; Print Assumptions lists PrimFloat kernel primitives only",
 )
 
+CHECKS["C14"] = dict(
+    category="proof",
+    text=("PARTIAL for the firmware side. Coq model of util.zha_security, the per-version write plan of write_network_info, an abstract NCP "
+          "store and the read-back of load_network_info: the security state carries exactly the supplied keys with presence flags matching "
+          "the supplied fields (all inputs); for every version 4..14 and every admissible input (distinct link-key partners, table size, "
+          "well-known trust-centre key from v5) the read-back equals what was written on PAN ids, channel/mask, update id, network key + "
+          "sequence, trust-centre key + hashed form, link keys, frame counter (v5+), children (v9+). The non-well-known TCLK case is proved "
+          "refuted (c14_tclk_refuted) and listed as a known finding. Tied to the real application and per-version accessors by "
+          "correspondence against a simulated NCP for every version; the NCP store is an assumption about firmware."),
+    design_ref="DESIGN.md section 6 C14",
+    technique="Coq proof about the model (plan / store / read-back) + correspondence with the real code on a simulated NCP (partial)",
+    note=TB + "; the NCP (harness/ncpsim.py and the Coq store) is a specification-derived assumption, not EmberZNet",
+)
+
 NOT_YET = {}
 
 
